@@ -1,17 +1,23 @@
 #!/bin/bash
 # usage: tools/fp_check.sh [dir...]   — false-alarm regression: applies every behaviour-preserving
 # refactoring kept under /verif/refactors/<tag>/refactorN.diff to a scratch copy of /repo's tree and
-# runs ALL registered quick checks on it; any check that exits non-zero is a false alarm.
-# Prints one line per (diff, alarming check); exit 1 if there is any.
+# runs ALL registered quick checks on it (8 in parallel); any check that exits non-zero is a false
+# alarm. Prints one line per diff (+ the alarming checks); exit 1 if there is any alarm.
 cd "$(dirname "$0")/.."
-ALL=$(jq -r '.checks[].property_id' MANIFEST.json | tr '\n' ' ')
+V="$(pwd)"
+./check.sh build >/dev/null
+ALL=$(jq -r '.checks[].property_id' MANIFEST.json)
 rc=0
 for d in ${@:-refactors/*}; do
   for f in $d/refactor*.diff; do
-    out=$(tools/mutcheck.sh "$(pwd)/$f" $ALL)
-    if echo "$out" | grep -q "PATCH-FAILED"; then echo "STALE  $f"; continue; fi
-    alarms=$(echo "$out" | grep -E "^(DETECTED|ERROR)" | cut -c1-260)
+    S="${VERIF_SCRATCH:-/var/tmp}/fpcheck.$$"
+    rm -rf "$S"; mkdir -p "$S/repo" "$S/verif"
+    rsync -a --exclude .git --exclude .tmp /repo/ "$S/repo/"
+    cp known_findings.json "$S/verif/"
+    if ! (cd "$S/repo" && patch -p1 --no-backup-if-mismatch -s < "$V/$f" >/dev/null 2>&1); then echo "STALE  $f"; rm -rf "$S"; continue; fi
+    alarms=$(echo "$ALL" | xargs -P 8 -I{} sh -c "VERIF_REPO=$S/repo VERIF_DIR=$S/verif $V/bin/verifsa check {} quick > $S/{}.out 2>&1; c=\$?; if [ \$c -ne 0 ]; then echo \"{} exit=\$c: \$(grep -E '^  (VIOLATION|UNDECIDED)' $S/{}.out | head -2 | cut -c1-220 | tr '\n' ' ')\"; fi")
     if [ -n "$alarms" ]; then echo "ALARM  $f"; echo "$alarms" | sed 's/^/    /'; rc=1; else echo "quiet  $f"; fi
+    rm -rf "$S"
   done
 done
 exit $rc
